@@ -28,12 +28,12 @@ CBB = "stun_rs::common::check_buffer_boundaries"
 
 
 def upper(name):
-    m = re.match(r"num::from_be_bytes\(array\((.*)\)\)$", name)
+    m = re.match(r"(?:num|u\d+)::from_be_bytes\(array\((.*)\)\)$", name)
     if m and not name.startswith("len("):
         k = m.group(1).count(", ") + 1          # an integer assembled from k bytes
         if k in (1, 2, 4):
             return (1 << (8 * k)) - 1
-    if name.startswith(("BigEndian::read_u16(", "num::from_be_bytes(")) and "read_u16" in name.split("(")[0]:
+    if name.startswith(("BigEndian::read_u16(", "u16::from_be_bytes(")) and "read_u16" in name.split("(")[0]:
         return 65535
     if "read_u16" in name or "msg_length" in name:
         return 65535
